@@ -3,7 +3,7 @@
    program of the same file is co-simulated against the real code on every run. *)
 From Coq Require Import ZArith List Bool.
 From ScV Require Import Base.CInt Gen.Consts C04.AllgatherModel C04.AllgatherProofs.
-From ScV Require Import MPI.Prog MPI.Sem MPI.SemFrame C04.AllgatherSched.
+From ScV Require Import MPI.Prog MPI.Sem MPI.SemFrame MPI.SemPosted C04.AllgatherSched C04.AllgatherPosted.
 Import ListNotations.
 Local Open Scope Z_scope.
 
@@ -73,6 +73,22 @@ Theorem C04_every_schedule : forall (amax : Z), 1 <= amax -> forall (sz : nat) (
       (final s' \/ exists r s'', step s' r s'').
 Proof. exact allgather_all_schedules. Qed.
 Print Assumptions C04_every_schedule.
+
+(* the same under the POSTED-RECEIVE semantics of MPI/SemPosted.v (run_p / step_p): a pending Irecv does not hold
+   back the Isends posted after it in its window, posted receives complete in any order as the messages arrive, the
+   code after the completion call runs when all are complete.  Every schedule of the blocking semantics above is a
+   schedule of this one, so this is the statement about the LARGER set of schedules (both stages of sc_allgather use
+   Irecv/Isend windows completed by one MPI_Waitall). *)
+Theorem C04_every_posted_schedule : forall (amax : Z), 1 <= amax -> forall (sz : nat) (P : Z) (b : Z -> payload),
+  (forall r, 0 <= r < P -> length (b r) = sz) -> 0 < P ->
+  exists n : nat,
+    run_p n (ag_start amax sz P b) (ag_end P b) /\
+    forall m s', run_p m (ag_start amax sz P b) s' ->
+      (m <= n)%nat /\ run_p (n - m) s' (ag_end P b) /\
+      (final s' -> s' = ag_end P b /\ m = n) /\
+      (final s' \/ exists r s'', step_p s' r s'').
+Proof. exact allgather_all_posted_schedules. Qed.
+Print Assumptions C04_every_posted_schedule.
 
 (* what ag_end is: the result of rank r is the row of rank r of the GLOBAL dataflow model `allgather`
    (the object of C04_allgather), which is the blocks in rank order *)
